@@ -194,6 +194,46 @@ def shard_files(shard, nshards, tier, seed, scratch):
                         compare_files(drv, samples, cfg, stats, failures, seen, leg='samples')
                         compare_files(drv, samples, cfg, stats, failures, seen, leg='samples', mode='bulk', scratch=scratch)
             stats.samples.append({'leg': 'files', 'bytes': samples[0].hex(), 'py': py_read(samples[0], 'utf-8', ',', 'quoted_rfc', None, False)})
+        if shard in (1, 2, 3):
+            # files larger than one 64 KiB stream chunk, every kind of line ending and an empty line near each chunk boundary
+            import random
+            rnd = random.Random(seed * 7 + shard)
+            combos = [(b'\r', 0), (b'\r\n', 0), (b'\r\n', -1), (b'\n', 0), (b'\r', -1), (b'\r', 1), (b'\r\n', 1), (b'\n', -1)]
+            for fileno in range(2 if tier == 'quick' else 8):
+                eol, delta = combos[((shard - 1) * 2 + fileno) % len(combos)] if tier == 'quick' else combos[fileno]
+                parts = []
+                size = 0
+                target = (65536 if (tier == 'quick' or fileno % 2 == 0) else 131072) + delta
+                while size < 140000:
+                    line = ('r%d,"%s",%s' % (len(parts), rnd.choice(['a,b', 'q""r', 'é€', 'plain', '𝄞']), 'x' * rnd.randint(0, 30))).encode('utf-8')
+                    if size < target <= size + len(line) + 2 * len(eol):
+                        line = line[:max(target - size - len(eol), 1)].decode('utf-8', errors='ignore').encode('utf-8') or b'z'
+                        parts.append(line)
+                        parts.append(b'')          # an empty line right at the boundary
+                        size += len(line) + 2 * len(eol)
+                        continue
+                    parts.append(line)
+                    size += len(line) + len(eol)
+                data = eol.join(parts) + eol
+                path = os.path.join(scratch, 'c18_big.csv')
+                with open(path, 'wb') as f:
+                    f.write(data)
+                for policy in ('quoted', 'simple'):
+                    cfg = dict(encoding='utf-8', delim=',', policy=policy, comment_prefix=None, has_header=False)
+                    py = py_read(data, 'utf-8', ',', policy, None, False)
+                    for mode in ('file', 'bulk'):
+                        js = js_norm(drv.call(dict(cfg, cmd='read_csv', mode=mode, path=path)))
+                        stats.evaluations += 1
+                        stats.nontrivial_counted += 1
+                        if py != js:
+                            diff_at = None
+                            if py[0] != 'error' and js[0] != 'error':
+                                diff_at = next((i for i, (x, y) in enumerate(zip(py[0], js[0])) if x != y), min(len(py[0]), len(js[0])))
+                            add_failure(failures, seen, 'bigfiles', Violation('big-file-reader-differs-' + mode, {'size': len(data), 'eol': eol.decode(), 'policy': policy, 'first_difference_at_record': diff_at,
+                                                                                                                      'py_records': len(py[0]) if py[0] != 'error' else py, 'js_records': len(js[0]) if js[0] != 'error' else js,
+                                                                                                                      'py_warnings': py[2] if py[0] != 'error' else None, 'js_warnings': js[2] if js[0] != 'error' else None}),
+                                        {'kind': 'bigfile', 'note': 'regenerated from seed', 'seed': seed, 'shard': shard})
+            stats.bump('big-files')
     finally:
         drv.close()
     return {'stats': stats.export(), 'failures': failures, 'extra': {'exhaustive': True}}
@@ -373,6 +413,14 @@ def replay(case, clause=None):
             d = tempfile.mkdtemp(prefix='vf_c18_')
             try:
                 compare_files(drv, [bytes.fromhex(case['hex'])], case['cfg'], stats, failures, seen, mode=case.get('mode', 'stream'), scratch=d)
+            finally:
+                shutil.rmtree(d, ignore_errors=True)
+        elif kind == 'bigfile':
+            import tempfile, shutil
+            d = tempfile.mkdtemp(prefix='vf_c18_')
+            try:
+                r = shard_files(case.get('shard', 1), 6, 'quick', (case.get('seed', 1001) - case.get('shard', 1)) // 1000 * 1000 + case.get('shard', 1), d)
+                failures += [f for f in r['failures'] if f.get('leg') == 'bigfiles']
             finally:
                 shutil.rmtree(d, ignore_errors=True)
         elif kind == 'longfile':
